@@ -89,7 +89,9 @@ def run(cx):
     cx.rule("C18.R3", "configured resolver is used: every address the bridge connects to derives from the resolver argument or from a Resolve reply, never from a string literal")
     cx.rule("C18.R4", "agreement with the library: after a locally generated InterfaceNotFound reply the bridge goes on with the next request (no success return without reading again)")
     cx.rule("C18.R5", "termination parity: the results of proxy::handle and proxy::handle_connect go through the same BrokenPipe-is-normal-end handling; no raw close() of a descriptor that still has an owner")
-    r1(cx); r2(cx); r3(cx); r4(cx); r5(cx)
+    cx.rule("C18.R6", "forward then wait: in proxy.rs every write_all is followed by a flush of the same writer on every path before the bridge blocks in another read (or returns): bytes already received are never parked in a buffer")
+    cx.rule("C18.R7", "close detection precedes reading: in WatchClose::read the data descriptor is read only after the scan for hang-up/error events of both descriptors found nothing, and a hang-up is reported as BrokenPipe")
+    r1(cx); r2(cx); r3(cx); r4(cx); r5(cx); r6(cx); r7(cx)
 
 
 def r1(cx):
@@ -274,3 +276,51 @@ def r5(cx):
                      "libc::close() on a descriptor obtained with as_raw_fd(): its owner closes it again on drop (double close; IO-safety abort in debug builds, exit status lost)",
                      note_ok="closes a descriptor it owns")
     cx.notes.append("C18.R5: %d raw close() sites in proxy.rs" % n)
+
+
+def r6(cx):
+    n = 0
+    for body in cx.mir.bodies(PKG):
+        if body.promoted is not None or "proxy.rs" not in body.sp: continue
+        ws = [t for t in body.calls("=write_all", "=write") if "io" in t.callee.resolved or "Write" in (t.callee.trait or "")]
+        if not ws: continue
+        cx.saw(body)
+        cfg = Cfg(body); du = DefUse(body)
+        blocking = {t.bb for t in body.calls("=read", "=read_until", "=read_exact", "=read_line", "=recv", "=join", "=fill_buf")}
+        okret = {s.bb for s in body.stmts() if s.kind == "assign" and s.lhs.l == 0 and not s.lhs.p and s.rv == "agg" and isinstance(s.agg, dict) and s.agg.get("variant") == "Ok"}
+        for i, t in enumerate(ws):
+            if t.mac and ("eprint" in t.mac or "print" in t.mac): continue
+            n += 1
+            base = ref_chain(du, t.args[0].place.l)[-1]
+            fl = {x.bb for x in body.calls("=flush") if ref_chain(du, x.args[0].place.l)[-1] == base}
+            # Call::reply_* helpers flush themselves; here only raw writes are examined
+            good = bool(fl) and cfg.must_pass(t.target, sorted(blocking | okret), fl)
+            cx.check(good, "C18.R6", "%s:%s:%s#%d:flushed-before-blocking" % (PKG, body.path, t.callee.name, i), "%s %s" % (t.sp, body.path),
+                     "a path from this write reaches the next blocking read (or a successful return) without flushing the writer: with a buffered writer (stdout) bytes the bridge has already received stay unforwarded while it waits",
+                     note_ok="flush on every path before the next read/return")
+    cx.floor("C18.R6", "raw writes in proxy.rs", n, 4)
+
+
+def r7(cx):
+    cands = [b for b in cx.mir.bodies(PKG) if b.promoted is None and b.path.endswith("::read") and "WatchClose" in (b.impl_self or "")]
+    if len(cands) != 1: raise AnchorMissing("WatchClose::read: %d candidates" % len(cands))
+    body = cands[0]; cx.saw(body)
+    cfg = Cfg(body)
+    bp = [s.bb for s in body.stmts() if s.kind == "assign" and s.rv == "agg" and isinstance(s.agg, dict) and s.agg.get("variant") == "BrokenPipe"]
+    rd = [t for t in body.calls("libc::read") if t.callee.name == "read"]
+    ew = body.calls("=epoll_wait")
+    why = []
+    if len(bp) != 1 or len(rd) != 1 or len(ew) != 1: why.append("expected one BrokenPipe exit, one libc::read and one epoll_wait (found %d/%d/%d)" % (len(bp), len(rd), len(ew)))
+    else:
+        doms = cfg.dominators()
+        nexts = [t for t in body.calls("=next") if t.bb in doms.get(bp[0], set())]
+        if not nexts: why.append("the BrokenPipe exit is not inside a scan over the reported events")
+        else:
+            scan = max(nexts, key=lambda t: len(doms[t.bb]))     # innermost loop header around the BrokenPipe exit
+            if not cfg.dominates(scan.bb, rd[0].bb):
+                why.append("the data descriptor is read on a path that skipped the hang-up/error scan: a descriptor that is readable and hung up is read as a clean end-of-stream instead of ending the session")
+            if not cfg.dominates(ew[0].bb, scan.bb): why.append("the scan does not follow epoll_wait")
+        # the mask covers RDHUP, HUP and ERR
+        ors = [t for t in body.calls("=bitor")]
+        if len(ors) < 2: why.append("error mask is not the union of three event kinds")
+    cx.check(not why, "C18.R7", "%s:WatchClose::read:hangup-before-data" % PKG, body.sp, "; ".join(why), note_ok="epoll_wait -> scan all events for RDHUP|HUP|ERR (-> BrokenPipe) -> only then read")
